@@ -5,7 +5,7 @@ every behaviour is executed on fresh real comparer objects (IndexSpecification.C
 = defaultComparer) and the logged answers are validated by TLC at property level (one consistent total preorder over
 all instances and times, natural order where defined).  Contradictions are classified by a second validation against
 the model of what /repo does.  Store-level scenarios run every transaction in its own child process."""
-import json, os, random, re
+import json, os, random
 import vlib, keyorder_lib as kl
 
 META = dict(
@@ -17,26 +17,52 @@ META = dict(
     design_ref="C30",
 )
 
-V5 = ["null", "n1", "n2", "sa", "sb"]
+V4 = ["null", "n1", "n2", "sa"]
+V4S = ["null", "n1", "sa", "sb"]
 V6 = ["null", "T", "n1", "n2", "sa", "sb"]
 V8 = ["null", "F", "T", "n1", "n2", "n1h", "sa", "sb"]
-VD = ["miss", "null", "n1", "n2", "sa"]
+VD4 = ["miss", "null", "n1", "sa"]
 VD7 = ["miss", "null", "T", "n1", "n2", "sa", "sb"]
 KIND = {"null": "nil", "miss": "nil", "F": "bool", "T": "bool", "i0": "int", "i1": "int", "i2": "int",
         "nm1": "float", "n0": "float", "n1": "float", "n1h": "float", "n2": "float", "n10": "float",
         "se": "string", "s10": "string", "sa": "string", "sb": "string"}   # labels for signatures only
 
+# Trace validation always runs with NF = 3 and field 2 descending.  A comparer with fewer index fields is embedded by
+# leaving the unused positions absent ("miss") in every key: two absent values compare equal under every semantics,
+# so the padded positions never decide and never mismatch.
+TRACE_NF, TRACE_DESC = 3, [2]
 
-def fields_of(nf, desc):
-    return [dict(name=kl.FIELD_NAMES[f - 1], desc=(f in desc)) for f in range(1, nf + 1)]
 
+class Sess:
+    """One comparer configuration: mode + sort direction of each real index field."""
+    def __init__(self, tag, mode, descs):
+        self.tag, self.mode, self.descs = tag, mode, list(descs)
+        pos, p = [], 0
+        for d in self.descs:
+            p += 1
+            if mode == "indexspec":
+                while (p in TRACE_DESC) != d:
+                    p += 1
+            pos.append(p)
+        assert pos and pos[-1] <= TRACE_NF, (tag, pos)
+        self.pos = pos
+        self.traces = []           # list of (label, ops)
 
-class Cfg:
-    def __init__(self, tag, mode, nf, desc):
-        self.tag, self.mode, self.nf, self.desc = tag, mode, nf, sorted(desc)
+    @property
+    def nf(self):
+        return len(self.descs)
+
+    def fields(self):
+        return [dict(name=kl.FIELD_NAMES[p - 1], desc=bool(d)) for p, d in zip(self.pos, self.descs)]
+
+    def pad(self, key):
+        full = ["miss"] * TRACE_NF
+        for p, v in zip(self.pos, key):
+            full[p - 1] = v
+        return full
 
     def key(self):
-        return (self.mode, self.nf, tuple(self.desc))
+        return (self.mode, tuple(self.descs))
 
 
 def design(c, name, consts, invariants, view, workers=4, timeout=900, coverage=False):
@@ -64,22 +90,21 @@ def wit_to_ops(w):
     return ops
 
 
-def random_traces(rng, cfg, ntraces, length):
+def random_traces(rng, s, ntraces, length):
     """Seeded random programs: 3 instances, interleaved, values drawn per field from a small random subset of the
     whole pool so that ties on leading fields (which let later fields be reached) are frequent."""
     out = []
-    pool = [v for v in kl.ALL_VALS if cfg.mode == "default" or v != "miss"]
+    pool = [v for v in kl.ALL_VALS if s.mode == "default" or v != "miss"]
     for _ in range(ntraces):
         per_field = []
-        for f in range(cfg.nf):
-            style = rng.random()
-            if style < 0.35:      # one JSON kind only (uniformly typed field)
+        for f in range(s.nf):
+            if rng.random() < 0.35:      # one JSON kind only (uniformly typed field)
                 k = rng.choice(["float", "string", "number"])
                 cand = [v for v in pool if KIND[v] == k or (k == "number" and KIND[v] in ("int", "float"))]
             else:
                 cand = pool
             per_field.append(rng.sample(cand, min(len(cand), rng.randint(2, 4))))
-        keys = [[rng.choice(per_field[f]) for f in range(cfg.nf)] for _ in range(rng.randint(3, 7))]
+        keys = [[rng.choice(per_field[f]) for f in range(s.nf)] for _ in range(rng.randint(3, 7))]
         ops = [dict(op="new", i=i) for i in (1, 2, 3)]
         for _ in range(length):
             if rng.random() < 0.04:
@@ -90,29 +115,27 @@ def random_traces(rng, cfg, ntraces, length):
     return out
 
 
-def norm_events(evs):
+def norm_events(s, evs):
     out = []
     for e in evs:
-        e = dict(e)
-        e.pop("name", None)
         if e["ev"] == "New":
-            e = dict(ev="New", i=e["i"])
+            out.append(dict(ev="New", i=e["i"]))
         elif e["ev"] == "Cmp":
-            e = dict(ev="Cmp", i=e["i"], x=e["x"], y=e["y"], r=e["r"])
+            out.append(dict(ev="Cmp", i=e["i"], x=s.pad(e["x"]), y=s.pad(e["y"]), r=e["r"]))
         elif e["ev"] in ("Scan", "Find", "EndStore"):
-            e = dict(ev=e["ev"], i=e.get("i", 0), keys=e.get("keys") or [], x=e.get("x") or [], found=bool(e.get("found")),
-                     at=e.get("at") or [])
-        out.append(e)
+            out.append(dict(ev=e["ev"], i=e.get("i", 0), keys=[s.pad(k) for k in (e.get("keys") or [])],
+                            x=s.pad(e["x"]) if e.get("x") else [], found=bool(e.get("found")),
+                            at=s.pad(e["at"]) if e.get("at") else []))
     return out
 
 
-def classify(c, cfg, label, traces, stats, known_store=None):
-    """Property-level validation of implementation traces; contradictions are explained (or not) by the memory model."""
+def classify(c, mode, traces, sess_of, stats):
+    """Property-level validation of implementation traces (TraceSem = "open"); contradictions are then explained,
+    or not, by validating the same traces against the model of /repo (TraceSem = "memory")."""
     if not traces:
         return
-    tag = "%s-%s" % (cfg.tag, label)
-    res, index = kl.run_traces(c, kl.trace_consts(cfg.nf, cfg.desc, cfg.mode, "open"), traces, tag + "-open",
-                               timeout=c.pick(600, 1800))
+    res, index = kl.run_traces(c, kl.trace_consts(TRACE_NF, TRACE_DESC, mode, "open"), traces, mode + "-open",
+                               timeout=c.pick(900, 2400), heap=c.pick(None, "6g"))
     if res.hwm < res.nlines:
         ti, ei = index[res.hwm]
         raise vlib.InfraError("trace %s not consumed at event %d: %s\n%s" %
@@ -123,29 +146,32 @@ def classify(c, cfg, label, traces, stats, known_store=None):
     stats["contradictions"] += len(viols)
     if not viols:
         return
-    # second opinion: is the contradiction what the model of /repo (kind memory) predicts?
-    resm, _ = kl.run_traces(c, kl.trace_consts(cfg.nf, cfg.desc, cfg.mode, "memory"), traces, tag + "-mem",
-                            timeout=c.pick(600, 1800))
+    bad = sorted(set(index[v["l"] - 1][0] for v in viols))
+    sub = [traces[ti] for ti in bad]
+    resm, indexm = kl.run_traces(c, kl.trace_consts(TRACE_NF, TRACE_DESC, mode, "memory"), sub, mode + "-mem",
+                                 timeout=c.pick(900, 2400), heap=c.pick(None, "6g"))
     if resm.hwm < resm.nlines:
-        raise vlib.InfraError("memory-model validation did not consume the trace (%s)\n%s" % (tag, resm.out[-3000:]))
-    mism = {v[0]: v[1] for v in kl.printed(resm, "MISM")}
-    diff = {v[0]: (v[1], v[2]) for v in kl.printed(resm, "DIFF")}
+        raise vlib.InfraError("memory-model validation did not consume the traces (%s)\n%s" % (mode, resm.out[-3000:]))
+    # line numbers of the second run -> (trace, event)
+    mism = {(bad[indexm[v[0] - 1][0]], indexm[v[0] - 1][1]): v[1] for v in kl.printed(resm, "MISM")}
+    diff = {(bad[indexm[v[0] - 1][0]], indexm[v[0] - 1][1]): (v[1], v[2]) for v in kl.printed(resm, "DIFF")}
     stats["model_diffs"] += len(diff)
     by_sig = {}
     for v in viols:
         ti, ei = index[v["l"] - 1]
         name, evs = traces[ti]
+        s = sess_of[name]
         ev = evs[ei]
-        lines = [v["l"]] + [w for w in (v["w1"], v["w2"]) if w > 0 and v["ax"] not in ("scan-order", "scan-disagree")]
-        if ev["ev"] != "Cmp":
+        store = ev["ev"] != "Cmp"
+        where = [(ti, ei)] + ([] if store else [index[w - 1] for w in (v["w1"], v["w2"]) if w > 0])
+        if store:
             # store level: classified by scenario (the memory model has no B-tree)
             sig = "store:%s:%s" % (name, v["ax"])
-        elif any(l in diff for l in lines) or not any(l in mism for l in lines):
-            kinds = ",".join("%s/%s" % (KIND[a], KIND[b]) for a, b in zip(ev["x"], ev["y"]))
-            sig = "unexplained:%s:%s:nf=%d:%s" % (v["ax"], cfg.mode, cfg.nf, kinds)
+        elif any(w in diff for w in where) or not any(w in mism for w in where):
+            kinds = ",".join("%s/%s" % (KIND[a], KIND[b]) for a, b in zip(ev["x"], ev["y"]) if (a, b) != ("miss", "miss"))
+            sig = "unexplained:%s:%s:%s:%s" % (v["ax"], s.mode, "".join("d" if d else "a" for d in s.descs), kinds)
         else:
-            l = max(l for l in lines if l in mism)
-            m = sorted(mism[l])[0]             # [field, remembered kind, kind of x, kind of y]
+            m = sorted(mism[max(w for w in where if w in mism)])[0]   # [field, remembered kind, kind of x, kind of y]
             later = m[2] if m[2] != m[1] else m[3]
             if m[1] == "absent":
                 sig = "field-list-memory:first-key-lacks-field:later=%s" % later
@@ -155,18 +181,16 @@ def classify(c, cfg, label, traces, stats, known_store=None):
         d["count"] += 1
         d["axioms"][v["ax"]] = d["axioms"].get(v["ax"], 0) + 1
         if d["example"] is None:
-            lo = max(0, min(index[l - 1][1] for l in lines if index[l - 1][0] == ti) - 6)
-            d["example"] = dict(config=dict(mode=cfg.mode, fields=fields_of(cfg.nf, cfg.desc)), trace=name, violation=v,
-                                events=evs[lo:ei + 1] if ev["ev"] == "Cmp" else evs,
-                                involved_events=[traces[index[l - 1][0]][1][index[l - 1][1]] for l in lines],
-                                model_mismatch={str(l): mism.get(l) for l in lines},
-                                model_diff={str(l): diff.get(l) for l in lines})
+            lo = max(0, min(e for t, e in where if t == ti) - 6)
+            d["example"] = dict(config=dict(mode=s.mode, fields=s.fields(), positions=s.pos), trace=name, violation=v,
+                                events=evs if store else evs[lo:ei + 1],
+                                involved_events=[traces[t][1][e] for t, e in where],
+                                model_mismatch=[mism.get(w) for w in where], model_diff=[diff.get(w) for w in where])
     for sig in sorted(by_sig):
         d = by_sig[sig]
-        ex = d["example"]
         what = "%s contradicted %d times (%s); e.g. %s" % (
             sig, d["count"], ", ".join("%s x%d" % kv for kv in sorted(d["axioms"].items())),
-            json.dumps(ex["involved_events"])[:400])
+            json.dumps(d["example"]["involved_events"])[:400])
         c.report(sig, what, d)
         stats["signatures"][sig] = stats["signatures"].get(sig, 0) + d["count"]
 
@@ -176,157 +200,166 @@ def store_scenarios(rng, thorough):
     def st(i, *ops):
         return dict(i=i, ops=[dict(op=o) if isinstance(o, str) else dict(op="add", x=o) for o in ops])
 
-    def two_orders(name, mode, nf, desc, keys_a, keys_b, slot=4):
+    def two_orders(name, mode, descs, keys_a, keys_b, slot=4):
         """An empty committed store; two processes add the same keys in different orders inside their own
         (rolled back) transactions, scan and look every key up."""
-        return dict(name=name, mode=mode, fields=fields_of(nf, desc), slot=slot, nf=nf, desc=desc, steps=[
+        return (Sess(name, mode, descs), dict(name=name, slot=slot, steps=[
             st(1, "create", "commit"),
             st(2, "open", *keys_a, "scan", "findall", "rollback"),
-            st(3, "open", *keys_b, "scan", "findall", "rollback")])
+            st(3, "open", *keys_b, "scan", "findall", "rollback")]))
 
-    def two_commits(name, mode, nf, desc, keys_a, keys_b, slot=4):
+    def two_commits(name, mode, descs, keys_a, keys_b, slot=4):
         """Two transactions of different processes add keys and commit; a third process scans and looks up."""
-        return dict(name=name, mode=mode, fields=fields_of(nf, desc), slot=slot, nf=nf, desc=desc, steps=[
+        return (Sess(name, mode, descs), dict(name=name, slot=slot, steps=[
             st(1, "create", *keys_a, "commit"),
             st(2, "open", *keys_b, "commit"),
-            st(3, "open", "scan", "findall", "rollback")])
+            st(3, "open", "scan", "findall", "rollback")]))
 
     nums = [["nm1"], ["n0"], ["n1"], ["n1h"], ["n2"], ["n10"]]
     strs = [["se"], ["s10"], ["sa"], ["sb"]]
     sh = lambda xs: rng.sample(xs, len(xs))
+    gk = [[g, k] for g in ("n1", "n2", "n10") for k in ("sa", "sb", "se")]
+    kg = [[g, k] for g in ("sa", "sb") for k in ("nm1", "n1", "n2")]
     out = [
         # controls: uniformly typed fields, any insertion order must give one order
-        two_orders("uniform-numbers", "indexspec", 1, [], sh(nums), sh(nums)),
-        two_orders("uniform-strings-desc", "indexspec", 1, [1], sh(strs), sh(strs)),
-        two_commits("uniform-numbers-2txn", "indexspec", 1, [], sh(nums)[:3], sh(nums)[3:]),
-        two_orders("uniform-2fields", "indexspec", 2, [2],
-                   sh([[g, k] for g in ("n1", "n2", "n10") for k in ("sa", "sb", "se")]),
-                   sh([[g, k] for g in ("n1", "n2", "n10") for k in ("sa", "sb", "se")])),
-        two_orders("uniform-default-2fields", "default", 2, [],
-                   sh([[g, k] for g in ("sa", "sb") for k in ("nm1", "n1", "n2")]),
-                   sh([[g, k] for g in ("sa", "sb") for k in ("nm1", "n1", "n2")])),
+        two_orders("uniform-numbers", "indexspec", [0], sh(nums), sh(nums)),
+        two_orders("uniform-strings-desc", "indexspec", [1], sh(strs), sh(strs)),
+        two_commits("uniform-numbers-2txn", "indexspec", [0], sh(nums)[:3], sh(nums)[3:]),
+        two_orders("uniform-2fields", "indexspec", [0, 1], sh(gk), sh(gk)),
+        two_orders("uniform-default-2fields", "default", [0, 0], sh(kg), sh(kg)),
         # mixed kinds in one field: the first stored key compared fixes the comparer
-        two_orders("mixed-string-first-vs-number-first", "indexspec", 1, [],
+        two_orders("mixed-string-first-vs-number-first", "indexspec", [0],
                    [["sa"], ["n2"], ["n1"], ["nm1"], ["sb"]], [["n2"], ["n1"], ["sb"], ["nm1"], ["sa"]]),
-        two_commits("mixed-2txn-string-then-numbers", "indexspec", 1, [],
+        two_commits("mixed-2txn-string-then-numbers", "indexspec", [0],
                     [["sa"], ["n2"], ["n1"]], [["nm1"], ["n10"], ["sb"], ["n1h"]]),
-        two_orders("mixed-second-field", "indexspec", 2, [],
+        two_orders("mixed-second-field", "indexspec", [0, 0],
                    [["n1", "sa"], ["n1", "n2"], ["n1", "n1"], ["n1", "sb"]], [["n1", "n2"], ["n1", "sa"], ["n1", "n1"], ["n1", "sb"]]),
-        two_orders("default-first-key-lacks-field", "default", 2, [],
+        two_orders("default-first-key-lacks-field", "default", [0, 0],
                    [["n1", "miss"], ["n1", "n2"], ["n1", "n1"], ["n2", "n1"]], [["n1", "n2"], ["n1", "miss"], ["n1", "n1"], ["n2", "n1"]]),
     ]
     if thorough:
         big = [[g, k] for g in ("nm1", "n0", "n1", "n1h", "n2", "n10") for k in ("se", "s10", "sa", "sb")]
-        out += [two_orders("uniform-2fields-24keys", "indexspec", 2, [1], sh(big), sh(big)),
-                two_commits("uniform-2fields-24keys-2txn", "indexspec", 2, [], sh(big)[:12], sh(big)[12:]),
-                two_orders("uniform-default-24keys", "default", 2, [], sh(big), sh(big), slot=6)]
+        out += [two_orders("uniform-2fields-24keys", "indexspec", [0, 1], sh(big), sh(big)),
+                two_commits("uniform-2fields-24keys-2txn", "indexspec", [0, 0], sh(big)[:12], sh(big)[12:]),
+                two_orders("uniform-default-24keys", "default", [0, 0], sh(big), sh(big), slot=6)]
     return out
 
 
 def run(c):
     rng = random.Random(c.seed)
     stats = dict(events=0, contradictions=0, model_diffs=0, signatures={})
+    inv_mc = ["TypeOK", "SameAnswerUniform", "NaturalOnUniform", "InstancePreorder", "EmitWitness"]
     # ------------------------------------------------------------------ 1. design level (TLC exhaustive)
-    vals2 = c.pick(V5, V8)
     if c.quick:
-        r_mc = design(c, "mc", kl.design_consts(vals2, 2, [2], "indexspec", "memory", [1, 2], 3, "wit"),
-                      ["TypeOK", "SameAnswerUniform", "NaturalOnUniform", "EmitWitness"], "View")
-    else:   # the committed configuration, with coverage
-        r_mc = c.tlc_must_pass("KeyOrder", "KeyOrder_mc.cfg", workers=6, timeout=1500, coverage=True, tag="mc")
+        r_mc = design(c, "mc", kl.design_consts(V4, 2, [2], "indexspec", "memory", [1, 2], 3, "both"), inv_mc, "View")
+    else:   # the committed configuration (8 values), with coverage
+        r_mc = c.tlc_must_pass("KeyOrder", "KeyOrder_mc.cfg", workers=6, timeout=2400, coverage=True, tag="mc")
         zero = [a for a, (d, t) in r_mc.coverage.items() if t == 0 and a in ("New", "CmpUniform", "CmpMismatch", "Init")]
-        if zero:
-            raise vlib.InfraError("vacuity: actions never taken in KeyOrder_mc.cfg: %s" % zero)
-    r_mcd = design(c, "mcdef", kl.design_consts(c.pick(VD, VD7), 2, [], "default", "memory", [1, 2], 3, "wit"),
-                   ["TypeOK", "SameAnswerUniform", "NaturalOnUniform", "EmitWitness"], "View")
-    # repaired design: SameAnswer and natural order hold unconditionally, no finding action needed
-    for mode, vs in (("indexspec", V8), ("default", VD7)):
-        design(c, "dyn" + mode, kl.design_consts(vs, 2, [2] if mode == "indexspec" else [], mode, "dynamic", [1, 2], 2, "none"),
+        if zero or not all(a in r_mc.coverage for a in ("New", "CmpUniform", "CmpMismatch")):
+            raise vlib.InfraError("vacuity: actions never taken in KeyOrder_mc.cfg: %s / %s" % (zero, r_mc.coverage))
+    # default comparer: two instances in the thorough tier; one instance (behaviours only) in the quick tier, where
+    # cross-instance agreement is still decided on the real answers by the property-level trace validation
+    r_mcd = design(c, "mcdef", kl.design_consts(c.pick(VD4, VD7), 2, [], "default", "memory", c.pick([1], [1, 2]), 3, "both"),
+                   inv_mc, "View")
+    # repaired design: SameAnswer and natural order hold unconditionally, the finding action is never enabled
+    dyn = [("indexspec", V8, [2])] + ([] if c.quick else [("default", VD7, [])])
+    for mode, vs, desc in dyn:
+        design(c, "dyn" + mode, kl.design_consts(vs, 2, desc, mode, "dynamic", [1, 2], 2, "none"),
                ["TypeOK", "SameAnswer", "NaturalAlways", "SameAnswerUniform"], "View", workers=2)
-    # full histories <= 3 of one instance: per-instance preorder + behaviours
-    hist_runs = [("h1asc", Cfg("h1asc", "indexspec", 1, []), c.pick(V5, V6), 3),
-                 ("h1desc", Cfg("h1desc", "indexspec", 1, [1]), c.pick(V5, V8), 2)]
-    view_runs = [("b2", Cfg("b2", "indexspec", 2, [2]), vals2, 3),
-                 ("bdef", Cfg("bdef", "default", 2, []), c.pick(VD, VD7), 3)]
-    if not c.quick:
-        hist_runs.append(("h1def", Cfg("h1def", "default", 1, []), ["miss", "null", "T", "n1", "n2", "sa", "sb"], 2))
-        view_runs.append(("b2asc", Cfg("b2asc", "indexspec", 2, []), V8, 3))
     sessions = []
     distinct = set()
     nbeh = 0
     sample_beh = None
-    for name, cfg, vs, mh in hist_runs + view_runs:
-        is_hist = (name, cfg, vs, mh) in hist_runs
-        r = design(c, name, kl.design_consts(vs, cfg.nf, cfg.desc, cfg.mode, "memory", [1], mh, "beh"),
-                   ["TypeOK", "InstancePreorder"], None if is_hist else "View")
-        behs = [b[0] for b in kl.printed(r, "BEH")]
-        if is_hist:   # every behaviour is a prefix of a maximal one
-            behs = [b for b in behs if len(b["h"]) == mh - 1]
+
+    def add_behaviours(s, behs, maximal_len=None):
+        nonlocal nbeh, sample_beh
+        if maximal_len is not None:     # full history enumeration: every behaviour is a prefix of a maximal one
+            behs = [b for b in behs if len(b["h"]) == maximal_len]
         if len(behs) < 20:
-            raise vlib.InfraError("too few behaviours from TLC for %s: %d" % (name, len(behs)))
+            raise vlib.InfraError("too few behaviours from TLC for %s: %d" % (s.tag, len(behs)))
         nbeh += len(behs)
         sample_beh = sample_beh or behs[len(behs) // 2]
         ops = []
         for n, b in enumerate(behs):
             ops += beh_to_ops(b, 1 + n % 2)
             if b["x"] != b["y"]:
-                distinct.add(json.dumps([cfg.key(), b["h"], b["x"], b["y"]]))
-        sessions.append((cfg, "beh", dict(name=name, mode=cfg.mode, fields=fields_of(cfg.nf, cfg.desc), traces=[ops])))
-    # SameAnswer witnesses of the two-instance model (design-level counterexamples to the full SameAnswer)
-    for name, r, cfg in (("wit2", r_mc, Cfg("wit2", "indexspec", 2, [2])), ("witdef", r_mcd, Cfg("witdef", "default", 2, []))):
+                distinct.add(json.dumps([s.key(), b["h"], b["x"], b["y"]]))
+        s.traces.append((s.tag, ops))        # ONE trace: answers of all these instances must form one order
+        sessions.append(s)
+
+    # behaviours of one comparer object from every memory state (representative history + every probe)
+    add_behaviours(Sess("beh2", "indexspec", [0, 1]), [b[0] for b in kl.printed(r_mc, "BEH")])
+    add_behaviours(Sess("behdef", "default", [0, 0]), [b[0] for b in kl.printed(r_mcd, "BEH")])
+    # full histories <= MaxHist of one instance, one field: per-instance preorder checked by TLC on every history
+    hist_runs = [("h1asc", "indexspec", [0], c.pick(V4S, V6), 3)]
+    if not c.quick:
+        hist_runs += [("h1desc", "indexspec", [1], V8, 2), ("h1def", "default", [0], VD7, 2)]
+    for name, mode, descs, vs, mh in hist_runs:
+        r = design(c, name, kl.design_consts(vs, 1, [1] if descs[0] else [], mode, "memory", [1], mh, "beh"),
+                   ["TypeOK", "InstancePreorder"], None)
+        add_behaviours(Sess(name, mode, descs), [b[0] for b in kl.printed(r, "BEH")], maximal_len=mh - 1)
+    # SameAnswer witnesses of the two-instance model (design-level counterexamples to the unconditional SameAnswer)
+    for name, r, s in (("wit2", r_mc, Sess("wit2", "indexspec", [0, 1])), ("witdef", r_mcd, Sess("witdef", "default", [0, 0]))):
         wits = [w[0] for w in kl.printed(r, "WIT")]
+        if not wits and name == "witdef" and c.quick:
+            continue
         if not wits:
             raise vlib.InfraError("no SameAnswer witness printed by %s" % name)
-        for w in wits:
-            distinct.add(json.dumps([cfg.key(), w["hs"], w["x"], w["y"]]))
-        sessions.append((cfg, "wit", dict(name=name, mode=cfg.mode, fields=fields_of(cfg.nf, cfg.desc),
-                                          traces=[wit_to_ops(w) for w in wits])))
+        for n, w in enumerate(wits):
+            distinct.add(json.dumps([s.key(), w["hs"], w["x"], w["y"]]))
+            s.traces.append(("%s#%d" % (name, n), wit_to_ops(w)))
+        sessions.append(s)
     # seeded random programs over the whole pool
-    rcfgs = [Cfg("r1", "indexspec", 1, []), Cfg("r2", "indexspec", 2, [1]), Cfg("r3", "indexspec", 3, [2]), Cfg("rd2", "default", 2, []),
-             Cfg("rd3", "default", 3, [])]
-    for cfg in rcfgs:
-        trs = random_traces(rng, cfg, c.pick(40, 400), c.pick(40, 60))
-        sessions.append((cfg, "rnd", dict(name=cfg.tag, mode=cfg.mode, fields=fields_of(cfg.nf, cfg.desc), traces=trs)))
+    for s in (Sess("r1", "indexspec", [0]), Sess("r1d", "indexspec", [1]), Sess("r2", "indexspec", [1, 0]), Sess("r2a", "indexspec", [0, 0]),
+              Sess("r3", "indexspec", [0, 1, 0]), Sess("rd2", "default", [0, 0]), Sess("rd3", "default", [0, 0, 0])):
+        for n, ops in enumerate(random_traces(rng, s, c.pick(25, 150), c.pick(40, 60))):
+            s.traces.append(("%s#%d" % (s.tag, n), ops))
+        sessions.append(s)
     # ------------------------------------------------------------------ 2. run everything on the real comparers
     binp = kl.build(c)
     sf = os.path.join(c.scratch, "sessions.json")
-    json.dump([s for _, _, s in sessions], open(sf, "w"))
+    json.dump([dict(name=s.tag, mode=s.mode, fields=s.fields(), traces=[ops for _, ops in s.traces]) for s in sessions], open(sf, "w"))
     out = os.path.join(c.scratch, "replay.ndjson")
     c.run([binp, "replay", sf, out], timeout=600)
     got = vlib.split_traces(vlib.read_ndjson(out))
-    pos = 0
-    ncmp = 0
-    for cfg, label, s in sessions:
-        trs = [(n, norm_events(e)) for n, e in got[pos:pos + len(s["traces"])]]
-        pos += len(s["traces"])
-        ncmp += sum(1 for _, e in trs for x in e if x["ev"] == "Cmp")
-        if label == "rnd":
-            for _, e in trs:
-                for x in e:
+    by_mode = {"indexspec": [], "default": []}
+    sess_of = {}
+    pos = ncmp = 0
+    for s in sessions:
+        for (name, _), (_, evs) in zip(s.traces, got[pos:pos + len(s.traces)]):
+            evs = norm_events(s, evs)
+            by_mode[s.mode].append((name, evs))
+            sess_of[name] = s
+            ncmp += sum(1 for x in evs if x["ev"] == "Cmp")
+            if s.tag.startswith("r"):
+                for x in evs:
                     if x["ev"] == "Cmp" and x["x"] != x["y"]:
-                        distinct.add(json.dumps([cfg.key(), x["x"], x["y"]]))
-        # 3. code -> spec
-        classify(c, cfg, label, trs, stats)
-        if label == "rnd" and cfg.tag == "r2":
-            c.sample(dict(random_program_prefix=trs[0][1][:12]))
-    # ------------------------------------------------------------------ 4. store level, one child process per transaction
+                        distinct.add(json.dumps([s.key(), x["x"], x["y"]]))
+        pos += len(s.traces)
+    if pos != len(got):
+        raise vlib.InfraError("driver returned %d traces, expected %d" % (len(got), pos))
+    # ------------------------------------------------------------------ 3. store level, one child process per transaction
     scs = store_scenarios(rng, not c.quick)
     scf = os.path.join(c.scratch, "scenarios.json")
-    json.dump(scs, open(scf, "w"))
+    json.dump([dict(sc, mode=s.mode, fields=s.fields()) for s, sc in scs], open(scf, "w"))
     outs = os.path.join(c.scratch, "store.ndjson")
     c.run([binp, "store", scf, c.datadir("stores"), outs], timeout=900)
     sgot = vlib.split_traces(vlib.read_ndjson(outs))
-    groups = {}
-    for sc, (name, evs) in zip(scs, sgot):
-        cfg = Cfg("st", sc["mode"], sc["nf"], sc["desc"])
-        groups.setdefault(cfg.key(), (cfg, []))[1].append((name, norm_events(evs)))
     nscan = 0
-    for k in sorted(groups):
-        cfg, trs = groups[k]
-        cfg.tag = "st%d%s%s" % (cfg.nf, cfg.mode[0], "".join(map(str, cfg.desc)))
-        nscan += sum(1 for _, e in trs for x in e if x["ev"] == "Scan")
-        classify(c, cfg, "store", trs, stats)
-    c.sample(dict(store_scenario=scs[5]["name"], events=[e for e in norm_events(sgot[5][1]) if e["ev"] == "Scan"]))
+    sample_store = None
+    for (s, sc), (name, evs) in zip(scs, sgot):
+        evs = norm_events(s, evs)
+        by_mode[s.mode].append((sc["name"], evs))
+        sess_of[sc["name"]] = s
+        nscan += sum(1 for x in evs if x["ev"] == "Scan")
+        if sc["name"].startswith("mixed-string-first"):
+            sample_store = dict(store_scenario=sc["name"], steps=sc["steps"], scans=[x["keys"] for x in evs if x["ev"] == "Scan"])
+    # ------------------------------------------------------------------ 4. code -> spec
+    for mode in ("indexspec", "default"):
+        classify(c, mode, by_mode[mode], sess_of, stats)
     c.sample(dict(tlc_behaviour=sample_beh))
+    c.sample(dict(random_program_prefix=[t for t in by_mode["indexspec"] if t[0] == "r2#0"][0][1][:12]))
+    c.sample(sample_store)
     c.cov.update(dict(
         exhaustive=True, behaviours_from_tlc=nbeh, comparisons_on_real_code=ncmp, store_scenarios=len(scs), store_scans=nscan,
         evaluations=ncmp + nscan, distinct_nontrivial=len(distinct),
